@@ -103,6 +103,10 @@ func (e *Env) ElidedCount() int {
 // Matcher decides instance-ness for one pattern.
 type Matcher struct {
 	Holes map[string]HoleKind
+	// Relaxed drops the metavariable rules (kind and consistency): every
+	// metavariable occurrence matches any non-nil node. Used only to
+	// attribute a wrongly rewritten place to the metavariable semantics.
+	Relaxed bool
 	// Steps counts matching steps, to bound pathological backtracking.
 	Steps int
 }
@@ -212,6 +216,9 @@ func (m *Matcher) Match(p, n *Tree, env *Env) (*Env, bool) {
 func (m *Matcher) matchHole(name string, kind HoleKind, n *Tree, env *Env) (*Env, bool) {
 	if n == nil || n.Kind != KNode {
 		return env, false
+	}
+	if m.Relaxed {
+		return env, true
 	}
 	switch kind {
 	case IdentHole:
